@@ -1,5 +1,5 @@
 """C08 — workers answer each command exactly once and converge on the master's view."""
-import os, re
+import json, os, re
 import vlib
 from vlib import Case
 
@@ -30,7 +30,7 @@ ASSUMPTIONS = [
     "view_tracks_master is relative to one abstract ConfigState::dispatch shared by main process and worker; the only fact used about it is that the variants of the generated list state_noop (arms `=> Ok(())` of ConfigState::dispatch) leave the state untouched",
     "the session table is abstracted: 'only listen/system slots remain' is the event EDrained; the translator checks that shut_down_sessions tests against the slots counted from the slab",
 ]
-TRUSTED = ["translator props/c08.py:translate: a control-flow path analysis (if / if let / match / let-else / return / closures passed to .with) of every arm of read_channel_messages_and_notify, Server::notify and the two matches of Server::notify_proxys, counting push_queue per path; Request::get_destinations; the no-op arms of ConfigState::dispatch"]
+TRUSTED = ["translator props/c08.py:translate: a control-flow path analysis (if / if let / match / let-else / return / closures passed to .with) of every arm of read_channel_messages_and_notify, Server::notify and the two matches of Server::notify_proxys, counting push_queue per path; Request::get_destinations; the no-op arms of ConfigState::dispatch. Locals and parameters may have any name and the proxy fan-out / the release of a listener's slot are followed into the private function they may have been moved to; a construct it cannot read is reported `unreadable:`, that part of Gen.v then comes from the committed snapshot props/c08_facts.json and the run falls back on the correspondence (TRANSLATE_FALLBACK)"]
 LEVEL_TEXT = ("Machine-checked proof (Coq 8.16) over an executable model of the worker's command handling (read_channel_messages_and_notify "
               "-> notify -> notify_proxys, stop handling, listener bookkeeping) that is generic in the configuration view, in "
               "ConfigState::dispatch and in everything the proxies decide (an oracle per request), and driven by an arms table regenerated "
@@ -258,20 +258,6 @@ def P_and_D(P, D):
 
 
 
-def block_after(src, start_re, what, fails, start=0):
-    m = re.compile(start_re).search(src, start)
-    if not m:
-        fails.append("%s: not found" % what)
-        return "", -1
-    i = src.find("{", m.end() - 1)
-    try:
-        j = match_close(src, i)
-    except PathError:
-        fails.append("%s: unbalanced" % what)
-        return "", -1
-    return src[i:j + 1], j
-
-
 def top_arms(body):
     """[(pattern text, arm body text without braces)] of a `match x { ... }` block given with its braces"""
     inner = body[1:-1]
@@ -306,154 +292,393 @@ def top_arms(body):
     return arms
 
 
-def coq_paths(ps):
-    return "[" + "; ".join("(%d, %s)" % (k, "true" if r else "false") for (k, r) in sorted(ps)) + "]"
+# A construct that is not recognised is reported `unreadable: ...`; the part of Gen.v it feeds then comes from the
+# committed snapshot props/c08_facts.json (`python3 props/c08.py --snapshot` rewrites it; ./check never does) and
+# ./check falls back on the correspondence with the real worker (TRANSLATE_FALLBACK).  A construct that IS recognised
+# and says something else goes into Gen.v as read (the proofs over the arms table then fail) or is reported without
+# the prefix.  Locals, parameters and private helpers may have any name; the proxy fan-out of notify_proxys is
+# followed into the private function it may have been moved to.
+
+FACTS = os.path.join(os.path.dirname(os.path.abspath(__file__)), "c08_facts.json")
+W = r"[A-Za-z_]\w*"
+
+TRANSLATE_FALLBACK = (
+    "only one thing is ever reported `unreadable:`: a SoftStop arm of read_channel_messages_and_notify that is not in one "
+    "of the recognised shapes (second_soft_stop_refused then comes from the snapshot props/c08_facts.json). It decides "
+    "whether a second soft stop gets its own final answer, and the driver counts the final answers per request id on a real "
+    "worker thread after a Status barrier, on generated cases with overlapping soft stops; "
+    "harmless/C08_mine_unreadable_changed (the second soft stop no longer answered, in the unreadable spelling) exits 1 "
+    "through the correspondence. Everything else the translator reads is a hard failure when it is not recognised")
 
 
-def translate():
-    fails = []
-    srv = strip_strings(open(os.path.join(vlib.REPO, SERVER)).read())
+class Unreadable(Exception):
+    pass
+
+
+def fn_block(src, name, what=None):
+    """(parameter text, `{...}` body with braces) of the first `fn name`, whatever its signature looks like"""
+    m = re.search(r"\bfn\s+%s\b" % name, src)
+    if not m:
+        raise Unreadable("%s: function not found" % (what or name))
+    i = src.find("(", m.end())
+    try:
+        j = match_close(src, i)
+        k = j
+        while src[k] != "{":
+            if src[k] == ";":
+                raise Unreadable("%s: no body" % (what or name))
+            k += 1
+        return src[i + 1:j], src[k:match_close(src, k) + 1]
+    except (PathError, IndexError):
+        raise Unreadable("%s: unbalanced" % (what or name))
+
+
+def blk(src, start_re, what, start=0):
+    m = re.compile(start_re).search(src, start)
+    if not m:
+        raise Unreadable("%s: not found" % what)
+    i = src.find("{", m.end() - 1)
+    try:
+        j = match_close(src, i)
+    except PathError:
+        raise Unreadable("%s: unbalanced" % what)
+    return src[i:j + 1], j
+
+
+def drop_asserts(src):
+    out, i = [], 0
+    for m in re.finditer(r"\bdebug_assert\w*!\s*\(", src):
+        if m.start() < i:
+            continue
+        out.append(src[i:m.start()])
+        i = match_close(src, m.end() - 1) + 1
+    out.append(src[i:])
+    return "".join(out)
+
+
+def sq(s):
+    return re.sub(r"\s+", "", s)
+
+
+def read_facts(fails):
+    srv = drop_asserts(strip_strings(open(os.path.join(vlib.REPO, SERVER)).read()))
     req = strip_strings(open(os.path.join(vlib.REPO, REQUEST)).read())
     st = strip_strings(open(os.path.join(vlib.REPO, "command/src/state.rs")).read())
     proto = open(os.path.join(vlib.REPO, "command/src/command.proto")).read()
-    one, _ = block_after(proto, r"oneof request_type\s*\{", "command.proto request_type", fails)
-    variants = ["".join(w[:1].upper() + w[1:] for w in name.split("_")) for name in re.findall(r"\b([A-Za-z_0-9]+)\s*=\s*\d+;", one)]
-    if len(variants) < 40:
-        fails.append("command.proto: could not list the RequestType variants")
+    facts = {"flags": {}, "noop": None, "s0": None, "s1": None, "s2": None, "s4": None, "dests": None, "variants": None}
     names = lambda pat: re.findall(r"RequestType::(\w+)", pat)
+
+    def section(fn):
+        try:
+            fn()
+        except Unreadable as ex:
+            fails.append("%s (not one of the pins the translator fallback covers)" % ex)
+        except (PathError, ValueError, IndexError) as ex:
+            fails.append("%s: %s (not one of the pins the translator fallback covers)" % (fn.__name__, ex))
+
+    def un(msg):
+        """hard: the construct was found and is not the modelled one, or nothing tests the fallback for it"""
+        fails.append(msg)
+
+    def soft(msg):
+        """the one pin the fallback covers (see TRANSLATE_FALLBACK): the shape of the SoftStop arm"""
+        fails.append("unreadable: " + msg)
 
     def arm_paths(what, body):
         try:
-            return paths(body)
+            return sorted([k, r] for k, r in paths(body))
         except (PathError, ValueError) as ex:
-            fails.append("%s: control flow not understood (%s)" % (what, ex))
-            return {(0, False)}
+            un("%s: control flow not understood (%s)" % (what, ex))
+            return None
+
+    def variants():
+        one, _ = blk(proto, r"oneof request_type\s*\{", "command.proto request_type")
+        vs = ["".join(w[:1].upper() + w[1:] for w in name.split("_")) for name in re.findall(r"\b([A-Za-z_0-9]+)\s*=\s*\d+;", one)]
+        if len(vs) < 40:
+            raise Unreadable("command.proto: could not list the RequestType variants")
+        facts["variants"] = vs
+    section(variants)
 
     # read_channel_messages_and_notify: the arms that do not simply call notify
-    rb, _ = block_after(srv, r"fn read_channel_messages_and_notify\(&mut self\) -> bool\s*\{", "read_channel_messages_and_notify", fails)
-    rm, _ = block_after(rb, r"Ok\(request\) => match request\.content\.request_type\s*\{", "read_channel match", fails)
-    s0, seen0 = {}, set()
-    flags = {"hard_stop_answers_soft": False, "second_soft_stop_refused": False}
-    for pat, body in top_arms(rm):
-        vs = names(pat)
-        calls_notify = len(re.findall(r"self\.notify\(request\)", body))
-        for v in vs:
-            seen0.add(v)
-            if v == "HardStop":
-                answers_soft = bool(re.search(r"if let Some\(soft_stop_id\) = self\.shutting_down\.take\(\) \{\s*if let Err\(e\) = self\.channel\.write_message\(&worker_response_error\(\s*soft_stop_id,", body))
-                drains = bool(re.search(r"QUEUE\.with\(\|queue\| \{\s*for response in queue\.borrow_mut\(\)\.drain\(\.\.\) \{\s*if let Err\(e\) = self\.channel\.write_message\(&response\)", body))
-                if not (calls_notify == 1 and re.search(r"^\s*let req_id = request\.id\.clone\(\);\s*self\.notify\(request\);", body)
-                        and re.search(r"if let Err\(e\) = self\.channel\.write_message\(&WorkerResponse::ok\(req_id\)\)", body)
-                        and len(re.findall(r"write_message\(", body)) == 1 + int(answers_soft) + int(drains)
-                        and re.search(r"return true;\s*$", body.strip())):
-                    fails.append("read_channel: the HardStop arm is no longer notify + (queued answers) + (the soft stop's answer) + one direct Ok + return true")
-                if answers_soft and not drains:
-                    fails.append("read_channel: the HardStop arm answers the soft stop but drops the queued answers")
-                flags["hard_stop_answers_soft"] = answers_soft
-            elif v == "SoftStop":
-                refused = bool(re.search(r"^\s*if let Some\(first\) = self\.shutting_down\.as_ref\(\) \{\s*push_queue\(worker_response_error\(\s*request\.id,[^;]*\)\);\s*\} else \{\s*self\.shutting_down = Some\(request\.id\.clone\(\)\);\s*self\.last_sessions_len = [^;]*;\s*self\.notify\(request\);\s*\}\s*$", body))
-                plain = bool(re.search(r"^\s*self\.shutting_down = Some\(request\.id\.clone\(\)\);\s*self\.last_sessions_len = [^;]*;\s*self\.notify\(request\);\s*$", body))
-                if not (calls_notify == 1 and (refused or plain)):
-                    fails.append("read_channel: the SoftStop arm no longer records shutting_down and calls notify once (refusing a second soft stop or not)")
-                flags["second_soft_stop_refused"] = refused
-            else:
-                if calls_notify:
-                    fails.append("read_channel: arm %s both answers and calls notify" % v)
-                s0[v] = arm_paths("read_channel arm " + v, body)
-        if pat.startswith("_") and body.strip().rstrip(",") != "self.notify(request)":
-            fails.append("read_channel: the default arm is no longer `self.notify(request)`")
-    if seen0 != {"HardStop", "SoftStop", "ReturnListenSockets"}:
-        fails.append("read_channel: special arms changed: %s" % sorted(seen0))
+    def read_channel():
+        _, rb = fn_block(srv, "read_channel_messages_and_notify")
+        mm = re.search(r"Ok\s*\(\s*(%s)\s*\)\s*=>\s*match\s+\1\s*\.\s*content\s*\.\s*request_type\s*\{" % W, rb)
+        if not mm:
+            raise Unreadable("read_channel: the match on the request type is not recognised")
+        rq = re.escape(mm.group(1))
+        rm = rb[mm.end() - 1:match_close(rb, mm.end() - 1) + 1]
+        call = r"self\s*\.\s*notify\s*\(\s*%s\s*\)" % rq
+        s0, seen0 = {}, set()
+        for pat, body in top_arms(rm):
+            vs = names(pat)
+            calls_notify = len(re.findall(call, body))
+            b = sq(body)
+            for v in vs:
+                seen0.add(v)
+                if v == "HardStop":
+                    answers_soft = bool(re.search(r"iflet(?:Some\((\w+)\)=self\.shutting_down\.take\(\)|Some\((\w+)\)=std::mem::take\(&mutself\.shutting_down\))\{ifletErr\(\w+\)=self\.channel\.write_message\(&worker_response_error\((?:\1|\2),", b))
+                    drains = bool(re.search(r"QUEUE\.with\(\|(\w+)\|\{?for(\w+)in\1\.borrow_mut\(\)\.drain\(\.\.\)\{ifletErr\(\w+\)=self\.channel\.write_message\(&\2\)", b))
+                    idm = re.match(r"let(\w+)=%s\.id\.clone\(\);self\.notify\(%s\);" % (rq, rq), b)
+                    if not (calls_notify == 1 and idm
+                            and re.search(r"ifletErr\(\w+\)=self\.channel\.write_message\(&WorkerResponse::ok\(%s\)\)" % idm.group(1), b)
+                            and len(re.findall(r"write_message\(", b)) == 1 + int(answers_soft) + int(drains)
+                            and re.search(r"returntrue;?$", b)):
+                        un("read_channel: the HardStop arm is not recognised as notify + (queued answers) + (the soft stop's answer) + one direct Ok + return true")
+                        continue
+                    if answers_soft and not drains:
+                        fails.append("read_channel: the HardStop arm answers the soft stop but drops the queued answers")
+                    facts["flags"]["hard_stop_answers_soft"] = answers_soft
+                elif v == "SoftStop":
+                    record = r"self\.shutting_down=Some\(%s\.id\.clone\(\)\);self\.last_sessions_len=[^;]*;self\.notify\(%s\);" % (rq, rq)
+                    refused = bool(re.fullmatch(r"iflet(?:Some\(\w+\)=self\.shutting_down\.as_ref\(\)|Some\(\w+\)=&self\.shutting_down)\{push_queue\(worker_response_error\(%s\.id,[^;]*\)\);\}else\{%s\}" % (rq, record), b)) or \
+                        bool(re.fullmatch(r"ifself\.shutting_down\.is_none\(\)\{%s\}else\{push_queue\(worker_response_error\(%s\.id,[^;]*\)\);\}" % (record, rq), b))
+                    plain = bool(re.fullmatch(record, b))
+                    if not (calls_notify == 1 and (refused or plain)):
+                        soft("read_channel: the SoftStop arm is not recognised (record shutting_down + notify once, refusing a second soft stop or not)")
+                        continue
+                    facts["flags"]["second_soft_stop_refused"] = refused
+                else:
+                    if calls_notify:
+                        fails.append("read_channel: arm %s both answers and calls notify" % v)
+                    s0[v] = arm_paths("read_channel arm " + v, body)
+            if pat.startswith("_") and not re.fullmatch(call, body.strip().rstrip(",")):
+                fails.append("read_channel: the default arm is no longer `self.notify(request)`")
+        if seen0 != {"HardStop", "SoftStop", "ReturnListenSockets"}:
+            fails.append("read_channel: special arms changed: %s" % sorted(seen0))
+        facts["s0"] = s0
+    section(read_channel)
 
     # Server::notify
-    nb, _ = block_after(srv, r"fn notify\(&mut self, message: WorkerRequest\)\s*\{", "Server::notify", fails)
-    mb, _ = block_after(nb, r"match &message\.content\.request_type\s*\{", "Server::notify match", fails)
-    s1 = {}
-    for pat, body in top_arms(mb):
-        for v in names(pat):
-            s1[v] = arm_paths("notify arm " + v, body)
-    pre = nb[:nb.find("match &message.content.request_type")]
-    if "push_queue(" in pre or re.search(r"\breturn;", re.sub(r"\|[^|]*\|\s*\{.*?\}\);", "", pre, flags=re.S)):
-        fails.append("Server::notify answers or returns before its match")
-    if not re.search(r"\}\s*self\.notify_proxys\(message\);\s*\}\s*$", nb):
-        fails.append("Server::notify no longer ends with self.notify_proxys(message)")
+    notify_body = [""]
+
+    def notify():
+        ptext, nb = fn_block(srv, "notify", "Server::notify")
+        pm = re.match(r"\s*&mut self\s*,\s*(%s)\s*:\s*WorkerRequest" % W, ptext)
+        if not pm:
+            raise Unreadable("Server::notify: parameters not recognised")
+        msg = re.escape(pm.group(1))
+        notify_body[0] = nb
+        mm = re.search(r"match\s+&\s*%s\s*\.\s*content\s*\.\s*request_type\s*\{" % msg, nb)
+        if not mm:
+            raise Unreadable("Server::notify: the match on the request type is not recognised")
+        mb = nb[mm.end() - 1:match_close(nb, mm.end() - 1) + 1]
+        s1 = {}
+        for pat, body in top_arms(mb):
+            for v in names(pat):
+                s1[v] = arm_paths("notify arm " + v, body)
+        pre = nb[:mm.start()]
+        if "push_queue(" in pre or re.search(r"\breturn;", re.sub(r"\|[^|]*\|\s*\{.*?\}\);", "", pre, flags=re.S)):
+            fails.append("Server::notify answers or returns before its match")
+        if not re.search(r"\}\s*self\s*\.\s*notify_proxys\s*\(\s*%s\s*\)\s*;?\s*\}\s*$" % msg, nb):
+            fails.append("Server::notify no longer ends with self.notify_proxys(message)")
+        facts["s1"] = s1
+    section(notify)
 
     # Server::notify_proxys
-    pb, _ = block_after(srv, r"pub fn notify_proxys\(&mut self, request: WorkerRequest\)\s*\{", "Server::notify_proxys", fails)
-    if not re.search(r"^\{\s*let applied_to_state = match self\.config_state\.dispatch\(&request\.content\) \{", pb):
-        fails.append("notify_proxys no longer starts by applying the request to config_state (view_tracks_master)")
-    if len(re.findall(r"config_state\s*\.dispatch\(", nb + pb)) != 1:
-        fails.append("notify / notify_proxys: config_state.dispatch is no longer called exactly once")
-    m1, e1 = block_after(pb, r"match request\.content\.request_type\s*\{", "notify_proxys first match", fails)
-    s2 = {}
-    for pat, body in top_arms(m1):
-        for v in names(pat):
-            s2[v] = arm_paths("notify_proxys first-match arm " + v, body)
-    m3, e3 = block_after(pb, r"match request\.content\.request_type\s*\{", "notify_proxys last match", fails, e1)
-    stage2 = pb[e1:pb.find("match request.content.request_type", e1)]
-    agg = re.findall(r"if proxy_destinations\.to_(http|https|tcp|udp)_proxy \{", stage2)
-    if agg != ["http", "https", "tcp", "udp"]:
-        fails.append("notify_proxys: the four proxy destinations are no longer consulted in order")
-    if len(re.findall(r"\.is_failure\(\) \|\| notify_response\.is_none\(\)", stage2)) != 3:
-        fails.append("notify_proxys: the first-or-failure aggregation is no longer recognised")
-    if not re.search(r"if let Some\(response\) = notify_response \{\s*push_queue\(response\);\s*\}", stage2) or len(re.findall(r"push_queue\(", stage2)) != 1:
-        fails.append("notify_proxys: the aggregated response is no longer pushed exactly once")
-    s4, fallback = {}, False
-    for pat, body in top_arms(m3):
-        if pat.startswith("_"):
-            fallback = bool(re.search(r"^\s*if !answered_by_a_proxy \{\s*push_queue\([^;]*\);\s*\}\s*$", body))
-            if not fallback and "push_queue(" in body:
-                fails.append("notify_proxys: the default arm of the last match answers unconditionally")
-        for v in names(pat):
-            s4[v] = arm_paths("notify_proxys last-match arm " + v, body)
-    if fallback and not re.search(r"let answered_by_a_proxy = notify_response\.is_some\(\);", stage2):
-        fails.append("notify_proxys: answered_by_a_proxy is no longer notify_response.is_some()")
-    tail = pb[e3 + 1:].strip()
-    if tail not in ("; }", ";\n    }", "}") and "push_queue(" in tail:
-        fails.append("notify_proxys answers after its last match")
-    # listener bookkeeping
-    rl = [b for pt, b in top_arms(m3) if "RemoveListener" in pt]
-    if not rl or not re.search(r"if applied_to_state \{.*?self\.base_sessions_count -= 1;\s*\}", rl[0], re.S):
-        fails.append("notify_proxys: RemoveListener no longer lowers base_sessions_count only when the state knew the listener")
-    # the slot a configured listener owns: taken by Add*Listener, kept by Deactivate, freed by RemoveListener
-    dl, _ = block_after(srv, r"fn notify_deactivate_listener\(", "notify_deactivate_listener", fails)
-    deactivate_frees = bool(re.search(r"slab\s*\.remove\(", dl))
-    remove_frees = bool(rl and re.search(r"if applied_to_state \{\s*if let Some\(token\) = self\.listener_slots\.remove\(&slot_key\) \{\s*let mut sessions = self\.sessions\.borrow_mut\(\);\s*if sessions\.slab\.contains\(token\.0\) \{\s*sessions\.slab\.remove\(token\.0\);", rl[0]))
-    for fn, kind in (("notify_add_http_listener", "Http"), ("notify_add_https_listener", "Https"), ("notify_add_tcp_listener", "Tcp"), ("notify_add_udp_listener", "Udp")):
-        b, _ = block_after(srv, r"fn %s\(" % fn, fn, fails)
-        if not re.search(r"entry\.insert\(Rc::new\(RefCell::new\(ListenSession \{", b) or \
-           (remove_frees and not re.search(r"self\.listener_slots\s*\.insert\(\(ListenerType::%s as i32, listener_address\), token\);" % kind, b)):
-            fails.append("%s: no longer takes one slab slot and records it in listener_slots" % fn)
-    al, _ = block_after(srv, r"fn notify_activate_listener\(", "notify_activate_listener", fails)
-    if len(re.findall(r"\.activate_listener\(", al)) != 4 or len(re.findall(r"self\.accept\(ListenToken\(token\.0\), Protocol::(?:HTTP|HTTPS|TCP)Listen\);", al)) != 3:
-        fails.append("notify_activate_listener: the four protocols no longer activate their listener (and accept on it)")
-    sd, _ = block_after(srv, r"fn shut_down_sessions\(&mut self\) -> bool\s*\{", "shut_down_sessions", fails)
-    if not re.search(r"if new_sessions_count <= listen_slots \{", sd) or re.search(r"<=\s*self\.base_sessions_count", sd):
-        fails.append("shut_down_sessions: completion is no longer tested against the listen slots counted from the slab")
+    ctx = {}
 
-    # get_destinations
-    gb, _ = block_after(req, r"pub fn get_destinations\(&self\) -> ProxyDestinations\s*\{", "get_destinations", fails)
-    gm, _ = block_after(gb, r"match request_type\s*\{", "get_destinations match", fails)
-    dests = {}
-    for pat, body in top_arms(gm):
-        n = len(set(re.findall(r"to_(http|https|tcp|udp)_proxy = true", body)))
-        for v in names(pat):
-            dests[v] = n
-    # ConfigState::dispatch: the variants it accepts without touching the state
-    db, _ = block_after(st, r"pub fn dispatch\(&mut self, request: &Request\) -> Result<\(\), StateError>\s*\{", "ConfigState::dispatch", fails)
-    dm, _ = block_after(db, r"match request_type\s*\{", "ConfigState::dispatch match", fails)
-    noop = []
-    for pat, body in top_arms(dm):
-        if body.strip().rstrip(",") == "Ok(())":
-            noop += names(pat)
+    def notify_proxys():
+        ptext, pb = fn_block(srv, "notify_proxys", "Server::notify_proxys")
+        pm = re.match(r"\s*&mut self\s*,\s*(%s)\s*:\s*WorkerRequest" % W, ptext)
+        if not pm:
+            raise Unreadable("Server::notify_proxys: parameters not recognised")
+        rq = re.escape(pm.group(1))
+        am = re.match(r"\{\s*let\s+(%s)\s*=\s*match\s+self\s*\.\s*config_state\s*\.\s*dispatch\s*\(\s*&\s*%s\s*\.\s*content\s*\)\s*\{" % (W, rq), pb)
+        am2 = re.match(r"\{\s*let\s+(%s)\s*=\s*self\s*\.\s*config_state\s*\.\s*dispatch\s*\(\s*&\s*%s\s*\.\s*content\s*\)\s*\.\s*(?:is_ok\s*\(\s*\)|map_err\b|inspect_err\b)" % (W, rq), pb)
+        if not am and not am2:
+            fails.append("notify_proxys no longer starts by applying the request to config_state (view_tracks_master)")
+        applied = re.escape((am or am2).group(1)) if (am or am2) else "applied_to_state"
+        if len(re.findall(r"config_state\s*\.\s*dispatch\s*\(", notify_body[0] + pb)) != 1:
+            fails.append("notify / notify_proxys: config_state.dispatch is no longer called exactly once")
+        mre = r"match\s+%s\s*\.\s*content\s*\.\s*request_type\s*\{" % rq
+        m1, e1 = blk(pb, mre, "notify_proxys first match")
+        s2 = {}
+        for pat, body in top_arms(m1):
+            for v in names(pat):
+                s2[v] = arm_paths("notify_proxys first-match arm " + v, body)
+        facts["s2"] = s2
+        m3, e3 = blk(pb, mre, "notify_proxys last match", e1)
+        stage2 = pb[e1 + 1:re.compile(mre).search(pb, e1).start()]
+
+        # the fan-out to the proxies and the merge of their answers: here, or in the private function it was moved to
+        hm = re.search(r"\blet\s+(?:mut\s+)?(%s)\s*=\s*self\s*\.\s*(%s)\s*\(\s*&\s*%s\s*\)\s*;" % (W, W, rq), stage2)
+        if not re.search(r"\bto_\w+_proxy\b", stage2) and hm:
+            hp, hb = fn_block(srv, re.escape(hm.group(2)), hm.group(2))
+            hpm = re.match(r"\s*&mut self\s*,\s*(%s)\s*:\s*&\s*WorkerRequest" % W, hp)
+            if not hpm:
+                raise Unreadable("%s: parameters not recognised" % hm.group(2))
+            fan, frq, merged, where = hb[1:-1], re.escape(hpm.group(1)), hm.group(1), hm.group(2)
+            if "push_queue(" in fan or re.search(r"\breturn\b", fan):
+                raise Unreadable("%s: answers or returns by itself" % where)
+        else:
+            fan, frq, merged, where = stage2, rq, None, "notify_proxys"
+        dm = re.search(r"\blet\s+(%s)\s*=\s*%s\s*\.\s*content\s*\.\s*get_destinations\s*\(\s*\)\s*;" % (W, frq), fan)
+        accm = re.search(r"\blet\s+mut\s+(%s)(?:\s*:[^=;]*)?\s*=\s*None\s*;" % W, fan)
+        if not dm or not accm:
+            raise Unreadable("%s: get_destinations / the merged answer (`let mut r = None`) are not recognised" % where)
+        d, acc = re.escape(dm.group(1)), re.escape(accm.group(1))
+        order = re.findall(r"\bif\s+%s\s*\.\s*to_(http|https|tcp|udp)_proxy\s*\{" % d, fan)
+        if sorted(order) != sorted(["http", "https", "tcp", "udp"]) or len(re.findall(r"\bto_\w+_proxy\b", fan)) != 4:
+            raise Unreadable("%s: the four proxy destinations are not each consulted once" % where)
+        if order != ["http", "https", "tcp", "udp"]:
+            fails.append("%s: the proxies are consulted in the order %s; the model's merge (first answer, replaced by a later failure) assumes http, https, tcp, udp" % (where, order))
+        merges = 0
+        for proto_ in ("http", "https", "tcp", "udp"):
+            bm = re.search(r"\bif\s+%s\s*\.\s*to_%s_proxy\s*\{" % (d, proto_), fan)
+            body = sq(fan[bm.end():match_close(fan, bm.end() - 1)])
+            call = r"self\.%s\.borrow_mut\(\)\.notify\(%s\.clone\(\)\)" % (proto_, frq)
+            if re.fullmatch(r"%s=Some\(%s\);" % (acc, call), body):
+                if proto_ != order[0]:
+                    fails.append("%s: the answer of the %s proxy overwrites the earlier ones" % (where, proto_))
+                continue
+            mm_ = re.fullmatch(r"let(\w+)=%s;if(?:\1\.is_failure\(\)\|\|%s\.is_none\(\)|%s\.is_none\(\)\|\|\1\.is_failure\(\))\{%s=Some\(\1\);\}" % (call, acc, acc, acc), body)
+            if not mm_:
+                raise Unreadable("%s: the %s branch is not `first answer, or a failure replaces it`" % (where, proto_))
+            merges += 1
+        if merges < 3:
+            raise Unreadable("%s: the first-or-failure merge is not recognised in three of the four branches" % where)
+        if merged is not None:
+            if not re.search(r"(?:^|[;}])\s*%s\s*$" % acc, fan.rstrip()):
+                raise Unreadable("%s: does not end with the merged answer" % where)
+            acc = re.escape(merged)
+        pushes = len(re.findall(r"push_queue\(", stage2))
+        pm_ = re.search(r"\bif\s+let\s+Some\s*\(\s*(%s)\s*\)\s*=\s*%s\s*\{\s*push_queue\s*\(\s*\1\s*\)\s*;\s*\}" % (W, acc), stage2)
+        if not pm_ and pushes == 1:
+            raise Unreadable("notify_proxys: the push of the merged answer is not recognised")
+        if pushes != 1:
+            fails.append("notify_proxys: the merged answer is pushed %d times" % pushes)
+        s4, fallback = {}, False
+        ansm = re.search(r"\blet\s+(%s)\s*=\s*%s\s*\.\s*is_some\s*\(\s*\)\s*;" % (W, acc), stage2)
+        for pat, body in top_arms(m3):
+            if pat.startswith("_"):
+                fb = re.fullmatch(r"if!(\w+)\{push_queue\([^;]*\);\}", sq(body))
+                fallback = bool(fb)
+                if not fallback and "push_queue(" in body:
+                    fails.append("notify_proxys: the default arm of the last match answers unconditionally")
+                if fallback and not (ansm and ansm.group(1) == fb.group(1)):
+                    raise Unreadable("notify_proxys: the fallback's condition is not `no proxy answered` (<merged answer>.is_some())")
+            for v in names(pat):
+                s4[v] = arm_paths("notify_proxys last-match arm " + v, body)
+        facts["s4"] = s4
+        facts["flags"]["fallback_answers"] = fallback
+        tail = pb[e3 + 1:].strip()
+        if tail not in ("; }", ";\n    }", "}") and "push_queue(" in tail:
+            fails.append("notify_proxys answers after its last match")
+        # listener bookkeeping
+        rl = [b for pt, b in top_arms(m3) if "RemoveListener" in pt]
+        if not rl:
+            raise Unreadable("notify_proxys: no RemoveListener arm")
+        r = sq(rl[0])
+        if not re.search(r"if%s\{(?:[^{}]|\{[^{}]*\})*?self\.base_sessions_count-=1;" % applied, r):
+            un("notify_proxys: RemoveListener is not recognised as lowering base_sessions_count only when the state knew the listener")
+        km = re.search(r"let(\w+)(?::\(i32,SocketAddr\))?=\((\w+)\.proxy,\2\.address\.into\(\)\);", r)
+        ctx["remove_frees"] = bool(km and re.search(
+            r"if%s\{iflet(?:Some\((\w+)\)=self\.listener_slots\.remove\(&%s\))\{letmut(\w+)=self\.sessions\.borrow_mut\(\);if\2\.slab\.contains\(\1\.0\)\{\2\.slab\.remove\(\1\.0\);" % (applied, km.group(1)), r))
+        hm2 = km and re.search(r"if%s\{self\.(\w+)\(&?%s\);\}" % (applied, km.group(1)), r)
+        if not ctx["remove_frees"] and hm2:
+            # the release was moved to a private function: follow it
+            hp, hb = fn_block(srv, re.escape(hm2.group(1)), hm2.group(1))
+            kp = re.match(r"\s*&mut self\s*,\s*(%s)\s*:" % W, hp)
+            h = sq(hb)
+            tm = kp and re.search(r"Some\((\w+)\)=self\.listener_slots\.remove\(&?%s\)" % re.escape(kp.group(1)), h)
+            if tm and re.search(r"\.slab\.remove\(%s\.0\)" % tm.group(1), h):
+                ctx["remove_frees"] = True
+            elif "listener_slots" in h or "slab" in h:
+                raise Unreadable("%s: touches listener_slots / the slab but the release of the slot is not recognised" % hm2.group(1))
+        if not ctx["remove_frees"] and "listener_slots" in r:
+            un("notify_proxys: RemoveListener touches listener_slots but the release of the slot is not recognised")
+        else:
+            facts["flags"]["remove_frees_slot"] = ctx["remove_frees"]
+    section(notify_proxys)
+
+    # the slot a configured listener owns: taken by Add*Listener, kept by Deactivate, freed by RemoveListener
+    def slots():
+        _, dl = fn_block(srv, "notify_deactivate_listener")
+        facts["flags"]["deactivate_frees_slot"] = bool(re.search(r"slab\s*\.\s*remove\s*\(", dl))
+        for fn, kind in (("notify_add_http_listener", "Http"), ("notify_add_https_listener", "Https"), ("notify_add_tcp_listener", "Tcp"), ("notify_add_udp_listener", "Udp")):
+            _, b = fn_block(srv, fn)
+            b = sq(b)
+            if not re.search(r"\w+\.insert\(Rc::new\(RefCell::new\(ListenSession\{", b) or \
+               (ctx.get("remove_frees") and not re.search(r"self\.listener_slots\.insert\(\(ListenerType::%sasi32,\w+\),\w+\);" % kind, b)):
+                un("%s: not recognised as taking one slab slot and recording it in listener_slots" % fn)
+        _, al = fn_block(srv, "notify_activate_listener")
+        if len(re.findall(r"\.\s*activate_listener\s*\(", al)) != 4 or len(re.findall(r"self\.accept\(ListenToken\(\w+\.0\),Protocol::(?:HTTP|HTTPS|TCP)Listen\);", sq(al))) != 3:
+            un("notify_activate_listener: not recognised as the four protocols activating their listener (and accepting on it)")
+        _, sd = fn_block(srv, "shut_down_sessions")
+        cm = re.search(r"\bif\s+(%s)\s*<=\s*(%s)\s*\{" % (W, W), sd) or re.search(r"\bif\s+(%s)\s*>=\s*(%s)\s*\{" % (W, W), sd)
+        if not cm or re.search(r"<=\s*self\s*\.\s*base_sessions_count", sd) or "base_sessions_count" in cm.group(0):
+            un("shut_down_sessions: completion is not recognised as tested against the listen slots counted from the slab")
+    section(slots)
+
+    def destinations():
+        _, gb = fn_block(req, "get_destinations")
+        gm, _ = blk(gb, r"match\s+%s\s*\{" % W, "get_destinations match")
+        dests = {}
+        for pat, body in top_arms(gm):
+            n = len(set(re.findall(r"to_(http|https|tcp|udp)_proxy\s*=\s*true", body)))
+            for v in names(pat):
+                dests[v] = n
+        if not dests:
+            raise Unreadable("get_destinations: no arm recognised")
+        facts["dests"] = dests
+    section(destinations)
+
+    def state_noop():
+        _, db = fn_block(st, "dispatch", "ConfigState::dispatch")
+        dm, _ = blk(db, r"match\s+%s\s*\{" % W, "ConfigState::dispatch match")
+        noop = []
+        for pat, body in top_arms(dm):
+            if body.strip().rstrip(",") == "Ok(())":
+                noop += names(pat)
+        facts["noop"] = noop
+    section(state_noop)
+    return facts
+
+
+FLAGS = ["fallback_answers", "second_soft_stop_refused", "hard_stop_answers_soft", "deactivate_frees_slot", "remove_frees_slot"]
+
+
+def translate(snapshot=False):
+    fails = []
+    facts = read_facts(fails)
+    if snapshot:
+        if fails:
+            raise SystemExit("not writing a snapshot from a tree the translator cannot read completely:\n  " + "\n  ".join(fails))
+        json.dump(facts, open(FACTS, "w"), indent=1, sort_keys=True)
+        return fails
+    try:
+        snap = json.load(open(FACTS))
+    except (OSError, ValueError):
+        snap = {}
+    # whatever could not be read comes from the snapshot (each such piece was reported `unreadable:` above)
+    for k in ("noop", "s0", "s1", "s2", "s4", "dests", "variants"):
+        if facts[k] is None:
+            facts[k] = snap.get(k)
+        elif isinstance(facts[k], dict):
+            for v, val in list(facts[k].items()):
+                if val is None:
+                    if v in (snap.get(k) or {}):
+                        facts[k][v] = snap[k][v]
+                    else:
+                        del facts[k][v]
+    for f in FLAGS:
+        if f not in facts["flags"]:
+            facts["flags"][f] = (snap.get("flags") or {}).get(f)
+    missing = [k for k in ("noop", "s0", "s1", "s2", "s4", "dests", "variants") if facts[k] is None] + [f for f in FLAGS if facts["flags"][f] is None]
+    if missing:
+        fails.append("the facts %s can neither be read from the source nor from props/c08_facts.json" % missing)
+        return fails
+    cp = lambda ps: "[" + "; ".join("(%d, %s)" % (k, "true" if r else "false") for (k, r) in sorted((k, bool(r)) for k, r in ps)) + "]"
+    s0, s1, s2, s4, dests = facts["s0"], facts["s1"], facts["s2"], facts["s4"], facts["dests"]
     rows = []
-    for v in variants:
+    for v in facts["variants"]:
         rows.append('  mkRow "%s" %s %s %s %d %s' % (
-            v, ("(Some %s)" % coq_paths(s0[v])) if v in s0 else "None",
-            coq_paths(s1.get(v, {(0, False)})), coq_paths(s2.get(v, {(0, False)})),
-            dests.get(v, 0), ("(Some %s)" % coq_paths(s4[v])) if v in s4 else "None"))
+            v, ("(Some %s)" % cp(s0[v])) if v in s0 else "None",
+            cp(s1.get(v, [[0, False]])), cp(s2.get(v, [[0, False]])),
+            dests.get(v, 0), ("(Some %s)" % cp(s4[v])) if v in s4 else "None"))
         if v not in dests:
             fails.append("get_destinations has no arm for %s" % v)
+    B = lambda b: "true" if b else "false"
     text = ("(* GENERATED by props/c08.py:translate from %s, %s and command/src/state.rs — do not edit *)\n"
             "From Coq Require Import List String Bool Arith.\nFrom SV Require Import C08.Base.\nImport ListNotations.\nOpen Scope string_scope.\n\n"
             "Definition fallback_answers : bool := %s.\n"
@@ -464,9 +689,7 @@ def translate():
             "(* variants ConfigState::dispatch accepts without touching the state *)\n"
             "Definition state_noop : list string := [%s].\n\n"
             "Definition arms_table : list arm_row := [\n%s\n].\n"
-            % (SERVER, REQUEST, "true" if fallback else "false", "true" if flags["second_soft_stop_refused"] else "false",
-               "true" if flags["hard_stop_answers_soft"] else "false", "true" if deactivate_frees else "false",
-               "true" if remove_frees else "false", "; ".join('"%s"' % v for v in noop), ";\n".join(rows)))
+            % ((SERVER, REQUEST) + tuple(B(facts["flags"][f]) for f in FLAGS) + ("; ".join('"%s"' % v for v in facts["noop"]), ";\n".join(rows))))
     vlib.write_if_changed(os.path.join(vlib.COQ, "C08", "Gen.v"), text)
     return fails
 
@@ -588,3 +811,13 @@ def nontrivial(case, o):
     verbs = {op[1] for op in sends}
     return (len(sends) >= 10 and len(verbs) >= 6 and any("Listener" in v for v in verbs)
             and any(op[2] >= 6 or op[1] in UNSERVED for op in sends))
+
+
+if __name__ == "__main__":
+    import sys
+    if sys.argv[1:] == ["--snapshot"]:
+        translate(snapshot=True)
+        print("wrote", FACTS)
+    else:
+        for f in translate():
+            print(f)
